@@ -1415,10 +1415,10 @@ fn conc_child(plan: &Plan, dir: &Path) -> Value {
 			sh.map_now.store(map, Ordering::Relaxed);
 			sh.over_since_resize.store(0, Ordering::SeqCst);
 		}
-		// a third of the plans close the store and open it again in the middle of the warm-up, once the map has
+		// three quarters of the plans close the store and open it again in the middle of the warm-up, once the map has
 		// been enlarged twice: what the enlargements achieved has to be there for the next life of the database
 		// (the batches that follow, opened under a held iterator or not, must find room as before)
-		if plan.rng % 3 == 0 && !warm_reopened && map_sizes.len() >= 3 {
+		if plan.rng % 4 != 0 && !warm_reopened && map_sizes.len() >= 3 {
 			warm_reopened = true;
 			drop(store);
 			store = match open_store(dir) {
